@@ -50,7 +50,7 @@ func c12Union(r *engine.Run, a, b geom.Geometry) {
 	wmn, wmx, _ := want.MinMaxXYs()
 	gmn, gmx, _ := got.MinMaxXYs()
 	mag := math.Max(math.Max(math.Abs(wmx.X), math.Abs(wmn.X)), math.Max(math.Abs(wmx.Y), math.Abs(wmn.Y)))
-	tol := 1e-9 * math.Max(1, mag)
+	tol := 1e-9 * mag
 	if math.Abs(wmn.X-gmn.X) > tol || math.Abs(wmn.Y-gmn.Y) > tol || math.Abs(wmx.X-gmx.X) > tol || math.Abs(wmx.Y-gmx.Y) > tol {
 		r.Violation("C12/union.envelope", "union", c, got.String())
 	}
